@@ -16,18 +16,18 @@ REPO = "/repo"
 
 # file -> checks, cheapest first (quick-tier costs in DESIGN §9.1)
 MAP = {
-    "prtpy/partitioning/greedy.py": ["C14", "C08", "C07", "C01"],
-    "prtpy/partitioning/roundrobin.py": ["C14", "C07", "C01"],
-    "prtpy/partitioning/multifit.py": ["C08", "C14", "C18", "C01"],
-    "prtpy/partitioning/karmarkar_karp_sy.py": ["C14", "C08", "C01"],
-    "prtpy/partitioning/complete_greedy.py": ["C11", "C13", "C02", "C01"],
-    "prtpy/partitioning/complete_karmarkar_karp_sy.py": ["C11", "C02", "C01"],
-    "prtpy/partitioning/sequential_number_partitioning_sy.py": ["C13", "C02", "C01"],
-    "prtpy/partitioning/recursive_number_partitioning_sy.py": ["C02", "C01"],
-    "prtpy/partitioning/dynamic_programming.py": ["C02", "C01"],
+    "prtpy/partitioning/greedy.py": ["C14", "C08", "C07"],
+    "prtpy/partitioning/roundrobin.py": ["C14", "C07"],
+    "prtpy/partitioning/multifit.py": ["C08", "C14", "C18"],
+    "prtpy/partitioning/karmarkar_karp_sy.py": ["C14", "C08"],
+    "prtpy/partitioning/complete_greedy.py": ["C11", "C13", "C02"],
+    "prtpy/partitioning/complete_karmarkar_karp_sy.py": ["C11", "C02"],
+    "prtpy/partitioning/sequential_number_partitioning_sy.py": ["C13", "C02"],
+    "prtpy/partitioning/recursive_number_partitioning_sy.py": ["C02"],
+    "prtpy/partitioning/dynamic_programming.py": ["C02"],
     "prtpy/partitioning/integer_programming.py": ["C17", "C02"],
     "prtpy/partitioning/cbldm.py": ["C12", "C11", "C19"],
-    "prtpy/partitioning/adaptors.py": ["C19", "C07", "C06", "C01"],
+    "prtpy/partitioning/adaptors.py": ["C19", "C07", "C06"],
     "prtpy/packing/first_fit.py": ["C09", "C14", "C03"],
     "prtpy/packing/best_fit.py": ["C09", "C14", "C03"],
     "prtpy/packing/bin_completion.py": ["C04", "C03"],
